@@ -52,6 +52,8 @@ func startNSQD(dir string, msgTimeout time.Duration) (*nsqd.NSQD, error) {
 type chanCounts struct {
 	Depth, InFlight, Deferred int64
 	Messages                  uint64
+	Timeouts, Requeues        uint64
+	TopicDepth                int64
 }
 
 func channelCounts(n *nsqd.NSQD, topic, channel string) (chanCounts, bool) {
@@ -59,7 +61,8 @@ func channelCounts(n *nsqd.NSQD, topic, channel string) (chanCounts, bool) {
 	for _, t := range st.Topics {
 		for _, c := range t.Channels {
 			if c.ChannelName == channel {
-				return chanCounts{c.Depth, int64(c.InFlightCount), int64(c.DeferredCount), c.MessageCount}, true
+				return chanCounts{c.Depth, int64(c.InFlightCount), int64(c.DeferredCount), c.MessageCount,
+					c.TimeoutCount, c.RequeueCount, t.Depth}, true
 			}
 		}
 	}
